@@ -40,6 +40,15 @@ def gen_case(rng):
     chunks.append(data[prev:])
     chunks = [c for c in chunks if c]
     steps = []
+    if r < 0.07 and len(chunks) >= 2:
+        # ONE interruption that is reported late: the failing Read itself blocked for longer than the tolerance
+        # (a serial read deadline longer than the EOF tolerance), after which the source resumes at once
+        k = rng.randint(1, len(chunks) - 1)
+        for i, c in enumerate(chunks):
+            if i == k:
+                steps += ["sleep:%d" % int(1.5 * TOL), rng.choice(["eof", "timeout"])]
+            steps.append("d:" + c.hex())
+        return ";".join(steps), TOL, "resume", len(data)
     if r < 0.45:
         # transient interruptions, all within tolerance: delivered = uninterrupted stream
         for i, c in enumerate(chunks):
